@@ -1064,6 +1064,11 @@ def rule_exc(run, prog):
     # ---- obligation B: tokenizer totality (entry Lexer.__iter__, allowed set empty)
     it = prog.fn("lexer/lexer.py::Lexer.__iter__")
     for (cn, okey) in sorted(escaping.get(it.key, ())):
+        if not okey.startswith("lexer/"):
+            # raised while the text is obtained (File.source reading the disk), not while a string is turned into tokens: the
+            # totality clause quantifies over strings; the exception is still owed a handler in main (obligation A)
+            run.note(f"R-5.2: {cn} raised at {okey} passes through Lexer.__iter__ but is not raised by the tokenizer: judged at main only")
+            continue
         run.ob("R-5.2", f"{okey}->entry[Lexer.__iter__]", False,
                f"{cn} raised at {okey} can escape the tokenizer (Lexer.__iter__): the tokenizer is not total",
                origin_node.get(okey))
@@ -3187,3 +3192,5 @@ def check(run, prog):
     rule_ordering_types(run, prog)           # R-5.13
     from .c05_dispatch import rule_dispatch_arity
     rule_dispatch_arity(run, prog)           # R-5.14
+    from .c05_file_read import rule_read_answered
+    rule_read_answered(run, prog)            # R-5.15
